@@ -27,18 +27,19 @@ LEVEL_TEXT = ("Lean 4 theorems for one-axis block plans: concat_den / concat_blo
               "shuffle_den (take/shuffle: per-source-chunk fancy getitem of the sorted taker + concatenate + "
               "take(argsort(sorter)) puts taker[p] at position p, for every chunking and taker) and packGroups_flatten "
               "(the grouping loop loses/reorders nothing; instantiated at the tolerance extracted from dask.yaml), "
-              "pad_reuse_den_partial (reflect/symmetric/wrap = NumPy's periodic extension when the pad width does not "
-              "exceed the axis) with pad_reuse_refuted (false beyond that: known finding #16), expand_tuple_spec, "
+              "pad_reuse_den (full: reflect/symmetric/wrap = NumPy's periodic extension for EVERY pad width, also wider "
+              "than the axis - the repaired pad_reuse assembles each side from alternately reversed copies; defect #16 "
+              "fixed), expand_tuple_spec, "
               "contract_tuple_spec, reshape_merge_den (C-order index preserved when merged chunks tile whole rows). "
               "Everything else in the statement (transpose/moveaxis/swapaxes, squeeze/expand_dims, stack/block, "
               "broadcast_to, flip/rot90, tile, other pad modes, tril/triu, diff, the full reshape_rechunk) is validated "
               "against NumPy over irregular chunkings and empty axes, not proved.")
 LEVEL_NOTE = ("Trusted: Lean kernel + standard axioms; the harness; NumPy block kernels; n-d = product of one-axis plans "
-              "(validated). Known findings: pad reflect/symmetric/wrap with pad width > axis length (wrong shape/values).")
+              "(validated). Known findings: integer mean-pad corner rounding; stat-mode pads on an empty axis.")
 TECHNIQUE = "Lean 4 proof (list/index-map lemmas per operation plan) + differential correspondence"
 ASSUMPTIONS = [
     "n-d operations act axis by axis (product structure): theorems are one-axis, the n-d behaviour is validated against NumPy",
-    "np.pad's reflect/symmetric/wrap = the periodic extension `padSpec` (validated against np.pad on every pad case)",
+    "np.pad's reflect/symmetric/wrap = the periodic extension `padSpec` (validated against np.pad on every pad case, widths up to several periods)",
     "NumPy kernels on one block (reshape, transpose, getitem, concatenate, repeat, where) are NumPy's",
 ]
 TRUSTED = []
@@ -211,25 +212,31 @@ def case_pad1d(ctx, inp):
     cs, l, rr, mode = inp["cs"], inp["l"], inp["r"], inp["mode"]
     x, d = _mk([cs])
     n = len(x)
+    m = ctx.lean(Sym("pad"), Sym(mode), [int(v) for v in x], l, rr)
     try:
         e = np.pad(x, (l, rr), mode=mode)
     except ValueError:
-        ctx.note("np.pad rejects the arguments (e.g. extending an empty axis)")
-        return
-    m = ctx.lean(Sym("pad"), Sym(mode), [int(v) for v in x], l, rr)
-    ctx.eq("np.pad vs Lean padSpec (periodic extension)", m[1], e.tolist())
-    lim = n - 1 if mode == "reflect" else n
-    excess = max(l, rr) > lim
-    sig = f"pad:{mode}:width-exceeds-axis" if excess else None
+        e = None  # NumPy refuses to extend an empty axis
     try:
         r = da.pad(d, (l, rr), mode=mode)
         g = np.asarray(r.compute(scheduler="sync")).tolist()
-    except Exception as ex:
-        ctx.fail(f"pad({mode}) raised {type(ex).__name__}", sig=sig, observed=str(ex)[:200])
+        impl = [Sym("ok"), g]
+    except ValueError as ex:
+        r, impl = None, [Sym("raised")]
+    ctx.eq("da.pad (1-d) vs Lean padReuse plan", m[0], impl)
+    if e is None:
+        if r is not None:
+            ctx.fail("pad extended an empty axis although NumPy raises ValueError", observed=impl)
+        ctx.branch("pad1d:empty-axis-rejected")
         return
-    ctx.eq("da.pad (1-d) vs Lean padReuse plan", m[0], g)
+    ctx.eq("np.pad vs Lean padSpec (periodic extension)", m[1], e.tolist())
+    lim = n - 1 if mode == "reflect" else n
+    excess = max(l, rr) > lim
     ctx.branch(f"pad1d:{mode}" + (":excess" if excess else ""))
-    _same(ctx, f"pad({mode})" + (" with pad width > axis length" if excess else ""), r, e, sig=sig)
+    if r is None:
+        ctx.fail(f"pad({mode}) raised ValueError although NumPy pads", observed=impl)
+        return
+    _same(ctx, f"pad({mode})" + (" with pad width > axis length" if excess else ""), r, e)
 
 
 def case_roll1d(ctx, inp):
@@ -335,8 +342,7 @@ def case_op(ctx, inp):
         except ValueError:
             ctx.note("np.pad rejects the arguments (e.g. extending an empty axis)")
             return
-        if mode in REUSE and any(max(p) > (s - 1 if mode == "reflect" else s) for p, s in zip(pw, x.shape)):
-            sig = f"pad:{mode}:width-exceeds-axis"
+        excess = mode in REUSE and any(max(p) > (s - 1 if mode == "reflect" else s) for p, s in zip(pw, x.shape))
         if mode in ("maximum", "minimum", "mean") and 0 in x.shape:
             sig = "pad:stats:empty-axis:ValueError"
         try:
@@ -344,7 +350,7 @@ def case_op(ctx, inp):
         except Exception as ex:
             ctx.fail(f"pad({mode}) raised {type(ex).__name__}", sig=sig, observed=str(ex)[:200])
             return
-        ctx.branch("op:pad:" + mode + (":excess" if sig else ""))
+        ctx.branch("op:pad:" + mode + (":excess" if excess else ""))
         if mode == "mean" and x.dtype.kind in "iu" and sum(1 for p in pw if max(p) > 0) >= 2:
             # NumPy pads axis by axis and rounds after each axis; dask rounds the mean over all padded axes once
             try:
@@ -386,7 +392,7 @@ def case_op(ctx, inp):
         ctx.branch("op:" + op)
     if any(len(c) > 1 for c in inp["chunks"]):
         ctx.branch("multi-block-input")
-    _same(ctx, op + ("" if not sig else " (reflect/symmetric/wrap) with pad width > axis length"), r, e, sig=sig)
+    _same(ctx, op, r, e, sig=sig)
 
 
 CASES = {"fn": case_fn, "concat": case_concat, "pad1d": case_pad1d, "roll1d": case_roll1d, "op": case_op}
@@ -536,21 +542,23 @@ def generate(ctx):
     yield "pad1d", {"cs": [1], "l": 3, "r": 3, "mode": "symmetric"}
     yield "pad1d", {"cs": [2, 1], "l": 4, "r": 0, "mode": "wrap"}
     yield "pad1d", {"cs": [2, 1], "l": 0, "r": 3, "mode": "reflect"}
+    yield "pad1d", {"cs": [0], "l": 1, "r": 0, "mode": "wrap"}
+    yield "pad1d", {"cs": [0], "l": 0, "r": 0, "mode": "reflect"}
     # --- exhaustive small spaces: every chunking of n <= 4 (6 thorough), every pad width within the axis ---
     top = 3 if not ctx.thorough() else 6
     for n in range(1, top + 1):
         for cs in comps(n):
             for mode in REUSE:
-                lim = n - 1 if mode == "reflect" else n
+                lim = 2 * n + 1   # up to more than two periods on each side
                 for l in range(0, lim + 1):
-                    for r in ([0, lim] if not ctx.thorough() else range(0, lim + 1)):
+                    for r in ([0, n, lim] if not ctx.thorough() else range(0, lim + 1)):
                         yield "pad1d", {"cs": list(cs), "l": l, "r": r, "mode": mode}
             for s in range(-n - 1, n + 2):
                 yield "roll1d", {"cs": list(cs), "shift": s}
     for _ in range(ctx.n(120, 1500)):
         n = rng.randint(1, 9)
         mode = rng.choice(REUSE)
-        hi = n + 4 if rng.random() < 0.25 else (n - 1 if mode == "reflect" else n)
+        hi = 3 * n + 2 if rng.random() < 0.4 else (n - 1 if mode == "reflect" else n)
         yield "pad1d", {"cs": rand_comp(rng, n), "l": rng.randint(0, hi), "r": rng.randint(0, hi), "mode": mode}
     for _ in range(ctx.n(60, 800)):
         n = rng.randint(0, 12)
